@@ -1,7 +1,5 @@
 package main
 
-func runSweep(w *World, pkgs []string) []*FnResult { return nil }
-
 func runGround(w *World, which string) []*FnResult { return nil }
 
 func tryReplay(w *World, prop string, o *Obligation, results []*FnResult) *Replay { return nil }
